@@ -112,7 +112,8 @@ def licensed_tree(rng, lang, n, lexicon, tokfn, words, want_unary=0.3):
 
 EN_LEXICON = ['NP', 'N', 'NP[nb]/N', 'S[dcl]\\NP', '(S[dcl]\\NP)/NP', '(S\\NP)\\(S\\NP)', 'N/N', 'conj', ',', '.', 'PP/NP', '(NP\\NP)/NP',
               '(S[dcl]\\NP)/PP', 'S[b]\\NP', '(S[dcl]\\NP)/(S[b]\\NP)', '((S\\NP)\\(S\\NP))/NP', 'NP\\NP', 'S[ng]\\NP', 'S[pss]\\NP', 'LRB', 'RRB',
-              '(S[to]\\NP)/(S[b]\\NP)', 'S[dcl]/S[dcl]', ';', ':', '(S/S)/NP', 'S/S', 'S[adj]\\NP', '(S[dcl]\\NP)/(S[adj]\\NP)', 'PP', 'S[em]/S[dcl]']
+              '(S[to]\\NP)/(S[b]\\NP)', 'S[dcl]/S[dcl]', ';', ':', '(S/S)/NP', 'S/S', 'S[adj]\\NP', '(S[dcl]\\NP)/(S[adj]\\NP)', 'PP', 'S[em]/S[dcl]',
+              '(S[X]\\NP)\\(S[X]\\NP)', '((S[X]\\NP)\\(S[X]\\NP))/((S[X]\\NP)\\(S[X]\\NP))', 'S[X]/S[X]', '(S[X]/S[X])/(S[X]/S[X])', 'NP[nb]/N', '(NP[nb]/N)\\NP']
 JA_LEXICON = ['NP[case=nc,mod=nm,fin=f]', 'NP[case=ga,mod=nm,fin=f]', 'NP[case=o,mod=nm,fin=f]', 'S[mod=nm,form=base,fin=f]\\NP[case=ga,mod=nm,fin=f]',
               '(S[mod=nm,form=base,fin=f]\\NP[case=ga,mod=nm,fin=f])\\NP[case=o,mod=nm,fin=f]', 'NP[case=ga,mod=nm,fin=f]\\NP[case=nc,mod=nm,fin=f]',
               'NP[case=o,mod=nm,fin=f]\\NP[case=nc,mod=nm,fin=f]', 'S[mod=nm,form=base,fin=t]\\S[mod=nm,form=base,fin=f]',
